@@ -393,10 +393,15 @@ orc_executor_emulate (OrcExecutor *ex)
 
     for(i=0;i<ex->n;i+=CHUNK_SIZE){
       for(j=0;j<code->n_insns;j++){
+        /* an instruction with an x2/x4 prefix is emulated as 2n/4n elements
+         * of the unprefixed size: the position of the chunk (used by the
+         * load and store emulators) scales like the count */
         if (ex->n - i >= CHUNK_SIZE) {
-          opcode_ex[j].emulateN (opcode_ex + j, i, CHUNK_SIZE << opcode_ex[j].shift);
+          opcode_ex[j].emulateN (opcode_ex + j, i << opcode_ex[j].shift,
+              CHUNK_SIZE << opcode_ex[j].shift);
         } else {
-          opcode_ex[j].emulateN (opcode_ex + j, i, (ex->n - i) << opcode_ex[j].shift);
+          opcode_ex[j].emulateN (opcode_ex + j, i << opcode_ex[j].shift,
+              (ex->n - i) << opcode_ex[j].shift);
         }
       }
     }
